@@ -788,6 +788,8 @@ def fam_entry(r, idx):
                     locs.remove(l)
             else:
                 n = r.randint(1, 4)
+                if r.random() < 0.12 and len(have_b) < 2:
+                    n = 0  # a struct parameter made of builtins only
                 if len(locs) < n:
                     break
                 mine = [locs.pop() for _ in range(n)]
@@ -800,7 +802,8 @@ def fam_entry(r, idx):
                     ms.append({"name": namer.fresh("a"), "ty": r.choice(vtypes), "location": l})
                 avail = [(b, t) for (b, t) in [("vertex_index", W.S("u32")),
                                                ("instance_index", W.S("u32"))] if b not in have_b]
-                for b, ty in r.sample(avail, min(len(avail), r.choice([0, 0, 1, 2]))):
+                for b, ty in r.sample(avail, min(len(avail), r.choice([0, 0, 1, 2]) if n else
+                                                 r.choice([1, 2]))):
                     have_b.add(b)
                     ms.insert(r.randint(0, len(ms)), {"name": namer.fresh("bi"), "ty": ty,
                                                       "builtin": b})
